@@ -192,6 +192,21 @@ def check_case(case, ctx):
                 ctx.violation("framing", "empty stream yields packets", case)
                 return
             ctx.ok(fp=stream, case=case, classes=(f"framing:n={len(pkts)}",))
+        elif op == "keys_iv":
+            # session keys requested several times for the same random bytes with different IVs: every key object carries the IV
+            # it was asked for, and a packet encrypted with it is CBC under that IV
+            ctx.mon("roundtrip.reference")
+            for iv in case["ivs"]:
+                keys = c2.BeaconKeys.from_aes_rand(case["aes_rand"]) if iv is None else c2.BeaconKeys.from_aes_rand(case["aes_rand"], iv=iv)
+                want_iv = b"abcdefghijklmnop" if iv is None else iv
+                pkt = c2.encrypt_packet(case["pt"], **keys._asdict())
+                ref_ct = R.cbc_encrypt(keys.aes_key, want_iv, R.cs_pad(case["pt"]))
+                back = c2.decrypt_packet(pkt, keys.aes_key, keys.hmac_key, iv=want_iv)
+                if keys.iv != want_iv or not back.startswith(case["pt"]) or bytes(pkt.ciphertext) != ref_ct:
+                    ctx.violation("roundtrip.reference", f"BeaconKeys.from_aes_rand(..., iv={None if iv is None else iv.hex()}) after other IVs for the same session: key object carries IV {keys.iv.hex()}, "
+                                  f"packet decrypts under the requested IV: {back.startswith(case['pt'])}", case)
+                    return
+            ctx.ok(fp=("keys_iv", case["aes_rand"], tuple(case["ivs"])), case=case, classes=("keys:iv-history",))
         else:
             raise ValueError(op)
     finally:
@@ -238,9 +253,14 @@ def run_shard(shard, ctx):
             if ctx.out_of_time():
                 break
             pk = []
-            for _ in range(rng.randrange(1, 7)):
-                pk.append((rng.randbytes(16 * rng.choice([1, 1, 2, 3, 5, 40])), rng.randbytes(16)))
+            npk = rng.randrange(1, 7)
+            if i in (0, 1, 2):
+                npk = (1000, 1500, 6000)[i]  # a long-running task's results queued up: thousands of small packets in one body
+            for _ in range(npk):
+                pk.append((rng.randbytes(16 * rng.choice([1, 1, 2, 3, 5, 40] if npk < 100 else [1])), rng.randbytes(16)))
             check_case({"op": "framing", "packets": pk}, ctx)
+            if i < 40:
+                check_case({"op": "keys_iv", "aes_rand": rng.randbytes(16), "ivs": [rng.choice([None, rng.randbytes(16)]) for _ in range(4)], "pt": rng.randbytes(rng.randrange(1, 60))}, ctx)
 
 
 LEVEL_TEXT = (
